@@ -1,4 +1,5 @@
 import PrimitivModel.Lemmas.MoveSpec
+import PrimitivModel.Lemmas.MovePermute
 /-
 C02 — forward values equal the documented function, for the data-movement,
 reduction and selection kernels: for every well-formed operand shape (depth
@@ -551,13 +552,81 @@ theorem Fwd.concat_spec {α} {xs : List (Tensor α)} {y : Tensor α} {dim : Nat}
     simp only [at4_eq, startOf, ← List.map_take, List.map_map, Function.comp_def, share]
     rw [← key]
 
-/-- Unfinished: `permute_dims(x, perm)`: axis `k` of the result is axis `perm[k]` of
-`x`, `y[j] = x[i]` with `j = perm.map i` (multi-indices).  Missing: the
-mixed-radix lemma relating `permJ` to `Spec.Move.flat`.  Checked on the
-implementation against the multi-index oracle of props/_kmove.py. -/
-def Fwd.permute_dims_spec_full : Prop :=
-  ∀ (x y : Tensor Int) (perm : List Nat) (raw : Nat → Int), WF x.shape → permuteFw x perm raw = .ok y →
-    IsPermuted ((List.range perm.length).map x.shape.get) perm x.data y.data x.shape.volume
+/-- `permute_dims(x, perm)`: `perm` must be a permutation of `0 .. |perm|-1` with
+`depth ≤ |perm| ≤ 8`; axis `k` of the result is axis `perm[k]` of `x`, and
+`y[j] = x[i]` for multi-indices with `j = perm.map i`. -/
+theorem Fwd.permute_dims_spec {α} {x y : Tensor α} {perm : List Nat} {raw : Nat → α} (hx : WF x.shape)
+    (h : permuteFw x perm raw = .ok y) :
+    perm.Nodup ∧ (∀ p ∈ perm, p < perm.length) ∧ x.shape.dims.length ≤ perm.length ∧ perm.length ≤ 8 ∧
+    y.shape.batch = x.shape.batch ∧ (∀ k, k < perm.length → y.shape.get k = x.shape.get (perm.getD k 0)) ∧
+    IsPermuted ((List.range perm.length).map x.shape.get) perm x.data y.data x.shape.volume x.shape.batch := by
+  unfold permuteFw at h
+  obtain ⟨_, ys, m, hF, _, _, rfl⟩ := fw_inv h
+  obtain ⟨hp, h8, _, hb, _, hgk, hxv, st, rfl, hJ⟩ := permuteFw_plan hx hF
+  have hdep : x.shape.dims.length ≤ perm.length := by
+    unfold Front.permuteFw at hF
+    cases hS : ShapeOps.permuteDims x.shape perm with
+    | error e => simp [hS, bind, Except.bind] at hF
+    | ok sy => exact (permuteDims_ok hx hS).2.1
+  have ⟨_, _, _, _, hon⟩ := permuteFw_facts hx hF
+  refine ⟨hp.nodup, hp.lt, hdep, h8, hb, hgk, ?_⟩
+  intro idx b hv hb'
+  set n := perm.length with hn
+  set xdims := (List.range n).map x.shape.get with hxd
+  have hxl : xdims.length = n := by simp [hxd]
+  have hxg : ∀ k, k < n → xdims.getD k 1 = x.shape.get k := by
+    intro k hk
+    simp [hxd, List.getD, List.getElem?_map, List.getElem?_range hk]
+  obtain ⟨hlen, hval⟩ := (valid_iff xdims idx).mp hv
+  -- the flat index of `idx` in `x`
+  have hfx : flat xdims idx = enc x.shape.get (fun k => idx.getD k 0) n := by
+    rw [flat_eq_enc _ _ hlen, hxl]
+    unfold enc
+    apply Finset.sum_congr rfl
+    intro k hk
+    rw [pi_congr (fun j hj => hxg j (by have := Finset.mem_range.mp hk; omega))]
+  have hidx : ∀ k, k < n → idx.getD k 0 < x.shape.get k := by
+    intro k hk; have := hval k (by rw [hxl]; exact hk); rwa [hxg k hk] at this
+  have hlt : flat xdims idx < x.shape.volume := by rw [hfx, hxv]; exact enc_lt hidx
+  -- the flat index of `perm.map idx` in `y`
+  have hfy : flat (perm.map fun p => xdims.getD p 1) (perm.map fun p => idx.getD p 0) =
+      enc (fun k => x.shape.get (perm.getD k 0)) (fun k => idx.getD (perm.getD k 0) 0) n := by
+    rw [flat_eq_enc _ _ (by simp)]
+    simp only [List.length_map]
+    unfold enc
+    apply Finset.sum_congr rfl
+    intro k hk
+    have hk' := Finset.mem_range.mp hk
+    have g1 : ∀ j, j < n → (perm.map fun p => xdims.getD p 1).getD j 1 = x.shape.get (perm.getD j 0) := by
+      intro j hj
+      rw [getD_eq_get perm hj]
+      simp only [List.getD, List.getElem?_map, List.getElem?_eq_getElem hj, Option.map_some, Option.getD_some]
+      exact hxg _ (hp.lt _ (List.getElem_mem hj))
+    have g2 : (perm.map fun p => idx.getD p 0).getD k 0 = idx.getD (perm.getD k 0) 0 := by
+      rw [getD_eq_get perm hk']
+      simp [List.getD, List.getElem?_map, List.getElem?_eq_getElem hk']
+    beta_reduce
+    rw [g2, pi_congr (fun j hj => g1 j (by omega))]
+  -- the step of the loop nest
+  have hV := hx.vol_pos
+  have ht : flat xdims idx + x.shape.volume * b < (permuteFwMoves x.shape.volume x.shape.batch st).count := by
+    simp only [permuteFwMoves]
+    have := View3.lt_mul_of_lt hlt hb'
+    rw [Nat.mul_comm x.shape.batch]; exact this
+  have key := scatterSet_of_once hon x.data raw ht
+  simp only [permuteFwMoves] at key
+  rw [Nat.add_mul_div_left _ _ hV, Nat.div_eq_of_lt hlt, Nat.add_mul_mod_self_left, Nat.mod_eq_of_lt hlt, hJ _ hlt] at key
+  have e1 : enc (fun k => x.shape.get (perm.getD k 0)) (fun k => digit x.shape.get (flat xdims idx) (perm.getD k 0)) n
+      = enc (fun k => x.shape.get (perm.getD k 0)) (fun k => idx.getD (perm.getD k 0) 0) n := by
+    apply enc_congr
+    intro k hk
+    rw [hfx, digit_enc hidx (hp.get_lt hk)]
+  rw [e1] at key
+  have e2 : (0 + b) * x.shape.volume + enc (fun k => x.shape.get (perm.getD k 0)) (fun k => idx.getD (perm.getD k 0) 0) n
+      = enc (fun k => x.shape.get (perm.getD k 0)) (fun k => idx.getD (perm.getD k 0) 0) n + x.shape.volume * b := by ring
+  rw [e2] at key
+  rw [hfy]
+  exact key
 
 /-- `copy(x)` / `Device::copy_tensor`, also for a tensor of another device -/
 theorem Fwd.copy_spec {α} {x y : Tensor α} {raw : Nat → α} (h : copyTensor x raw = .ok y) :
